@@ -40,6 +40,9 @@ func init() {
 			{ID: "R08m", Floor: 2, Doc: "concurrent listings and Roots calls of the read-only store each have their own cursor (= R07q)", Run: ruleR07q},
 			{ID: "R08n", Floor: 2, Doc: "nothing is reported that was never put: an index hit is confirmed against the section's own CID/multihash before it is answered (= R07a)", Run: ruleR07a},
 			{ID: "R08o", Floor: 1, Doc: "methods the pinned tree keeps free of writes to their receiver stay so: a method of the library that stores nothing into memory reached from its receiver today (lookups, listings, inspections, getters — the table of those that do write is baseline_writers.txt) does not start to, directly, in a closure, or through a function the pinned tree does not have", Run: ruleR08o},
+			{ID: "R08p", Floor: 1, Doc: "nothing waits for other goroutines while it holds a store's lock: no sync.WaitGroup.Wait is reached with a guarded lock held (lock-set analysis)", Run: ruleR08p},
+			{ID: "R08q", Floor: 6, Doc: "de-duplication decides for identity CIDs as for any other when they are stored (= R04d)", Run: ruleR04d},
+			{ID: "R08r", Floor: 1, Doc: "a refused put of one goroutine leaves the shared deferred writer as it was (= R20f)", Run: ruleR20f},
 			{ID: "R08d", Floor: 8, Doc: "guard-table completeness: every field of the concurrent types that is stored outside the constructor phase is in the guard table", Run: ruleR08d},
 			{ID: "R08i", Floor: 1, Doc: "the lazily created writer is remembered only when its construction succeeded (a failed first initialisation is retried, not turned into a nil writer for the next caller) (= R16f)", Run: ruleR16f},
 		},
